@@ -188,15 +188,15 @@ PROPS = {
     },
     "C08": {
         "level": "exploration",
-        "jobs": lambda tier, seed: ports_jobs("c08", tier, seed, extra=lambda q, s, sd: shards("dbg", "w_ports", "c08r --svc local", 2, s, sd, first=60) + shards("dbg", "w_ports", "c08r --svc ipc", 1, s, sd, first=65)),
-        "rule": "adversarial histories that stay at the limits: publish-subscribe (loans, borrows, publishers, subscribers: limit reached, limit+1 refused with the documented error and without side effect on the model, saturation probe at the end) and request-response (active requests per client, borrowed responses per connection, request buffer at the server); every error/fatal log record inside the contract is a violation. Non-trivial = a history in which at least one limit was hit and enforced; distinct = distinct (config, kinds of events).",
+        "jobs": lambda tier, seed: ports_jobs("c08", tier, seed, extra=lambda q, s, sd: shards("dbg", "w_ports", "c08r --svc local", 2, s, sd, first=60) + shards("dbg", "w_ports", "c08r --svc ipc", 1, s, sd, first=65) + shards("dbg", "w_cal", "c03conn --prop C08 --storage local", 1 if q else 3, s, sd, first=90) + shards("dbg", "w_cal", "c03conn --prop C08 --storage shm", 1 if q else 3, s, sd, first=95)),
+        "rule": "adversarial histories that stay at the limits: publish-subscribe (loans, borrows, publishers, subscribers: limit reached, limit+1 refused with the documented error and without side effect on the model, saturation probe at the end) and request-response (active requests per client, borrowed responses per connection, request buffer at the server); every error/fatal log record inside the contract is a violation; 'a release never fails for lack of queue space' is decided at the connection level with operation-granularity interleavings of sender and receiver (reclaim-all / try_send / receive / release histories against an offset-conservation model). Non-trivial = a history in which at least one limit was hit and enforced; distinct = distinct (config, kinds of events).",
         "assumptions": COMMON_ASSUMPTIONS + ["event and blackboard limits are exercised by C05/C12/C20 workloads"],
         "floor": (300, 50),
     },
     "C11": {
         "level": "exploration",
-        "jobs": lambda tier, seed: ports_jobs("c11", tier, seed),
-        "rule": "sequential request-response histories over 1-2 clients x 1-2 servers (max active requests 1-3, response buffer 1-4, borrow 1-3, overflow on/off, fire-and-forget on/off) biased to the reuse pattern 'pending response dropped while responses are queued, next request takes the channel'; unique ids in requests and responses; an exact model of every request buffer and every response channel buffer (including stale entries of dropped requests) is compared after every step; failing histories are shrunk by delta debugging. Non-trivial = a history in which a pending response was dropped with queued responses or a response was sent after the client had dropped, and responses were received; distinct = distinct (config, kinds of events).",
+        "jobs": lambda tier, seed: ports_jobs("c11", tier, seed, extra=lambda q, s, sd: shards("dbg", "w_ports", "c11c --d1 300", 3 if q else 5, s, sd, first=70) + shards("tsan", "w_ports", "c11c --d1 100 --d2 10 --rand 10", 2, s, sd, first=80)),
+        "rule": "sequential request-response histories over 1-2 clients x 1-2 servers (max active requests 1-3, response buffer 1-4, borrow 1-3, overflow on/off, fire-and-forget on/off) biased to the reuse pattern 'pending response dropped while responses are queued, next request takes the channel'; unique ids in requests and responses; an exact model of every request buffer and every response channel buffer (including stale entries of dropped requests) is compared after every step; failing histories are shrunk by delta debugging. Concurrent: a client thread sends requests while 1-2 server threads poll, answer and the client collects (buffers sized so that nothing may be discarded), every hooked atomic operation of every thread is a stall point (depth-1 sweep, depth-2 sampled, random; debug and TSan): every request must reach every server exactly once in order, every response its own request. Non-trivial = a history in which a pending response was dropped with queued responses or a response was sent after the client had dropped, and responses were received / every concurrent execution; distinct = distinct (config, kinds of events) / (config, interleaving signature).",
         "assumptions": COMMON_ASSUMPTIONS + ["with two servers the order in which stale entries are skipped is not observable; such channel queues are judged tolerantly until drained"],
         "floor": (300, 50),
     },
